@@ -5,6 +5,7 @@ import "strconv"
 func init() {
 	vsymHarnesses["HarnessC10Reject"] = HarnessC10Reject
 	vsymHarnesses["HarnessC10SetOptions"] = HarnessC10SetOptions
+	vsymHarnesses["HarnessC10Options"] = HarnessC10Options
 }
 
 // required positional arguments per command: k key, s string, i integer, f float, b score bound,
@@ -195,6 +196,118 @@ func HarnessC10SetOptions() {
 	vsymAssert(okS && len(ends) == 2, "two-complete-replies")
 	if okS && len(ends) == 2 {
 		vsymAssert(conn.out[0] == '-', "conflicting-options-get-error-reply")
+		vsymAssert(vBytesEq(conn.out[ends[0]:], []byte("+PONG\r\n")), "following-request-processed-normally")
+	}
+	vsymAssert(len(h.calls) == 0, "handler-not-invoked-for-rejected-request")
+	vsymCover("end")
+}
+
+// option arguments that carry a value: well-formed request templates, '#' marks an integer value and
+// '~' a string value of an option (every marked element is a malformation site)
+var gOptionTemplates = [][]string{
+	{"ZRANGEBYSCORE", "k", "0", "5", "LIMIT", "#", "#"},
+	{"ZREVRANGEBYSCORE", "k", "5", "0", "LIMIT", "#", "#"},
+	{"ZRANGEBYSCORE", "k", "0", "5", "WITHSCORES", "LIMIT", "#", "#"},
+	{"ZRANGE", "k", "0", "5", "BYSCORE", "LIMIT", "#", "#"},
+	{"ZRANGE", "k", "0", "5", "BYSCORE", "REV", "LIMIT", "#", "#"},
+	{"SET", "k", "v", "EX", "#"}, {"SET", "k", "v", "PX", "#"}, {"SET", "k", "v", "EXAT", "#"}, {"SET", "k", "v", "PXAT", "#"},
+	{"SET", "k", "v", "NX", "EX", "#"},
+	{"SCAN", "0", "COUNT", "#"}, {"SCAN", "0", "MATCH", "~"}, {"SCAN", "0", "TYPE", "~"}, {"SCAN", "0", "MATCH", "~", "COUNT", "#"},
+	{"LPOP", "k", "%"}, {"RPOP", "k", "%"}, // '%': an integer operand that may be absent altogether
+}
+
+// HarnessC10Options: a request whose option value (LIMIT offset/count, expiry, COUNT, pop count,
+// MATCH/TYPE operand) is missing, null or not a number is rejected without a handler call, whatever
+// well-formed values the other options carry.
+func HarnessC10Options() {
+	ti := vsymParamInt("template", 0)
+	vsymUnwind(400)
+	if ti >= len(gOptionTemplates) {
+		vsymCover("no-such-template")
+		return
+	}
+	tmpl := gOptionTemplates[ti]
+	vsymTag("template", tmpl[0]+"#"+string(vItoa(ti)))
+	server := NewServer()
+	h := &vhandler{mode: 0}
+	server.SetCommandHandler(h)
+	var sites []int
+	for i, a := range tmpl {
+		if a == "#" || a == "~" || a == "%" {
+			sites = append(sites, i)
+		}
+	}
+	site := sites[vsymChoice("site", len(sites))]
+	var null = []byte{0xff, 'N', 'U', 'L', 'L'}
+	var args [][]byte
+	for i, a := range tmpl {
+		switch {
+		case i == site:
+			// the malformed value
+			mal := vsymChoice("malformation", 4)
+			if a == "~" && mal >= 2 {
+				mal = vsymChoice("malformation-str", 2)
+			}
+			if a == "%" && mal == 0 {
+				mal = 1
+			}
+			switch mal {
+			case 0:
+				vsymTag("malformation", "missing")
+				vsymCover("missing")
+			case 1:
+				args = append(args, null)
+				vsymTag("malformation", "null")
+				vsymCover("null")
+			case 2:
+				tok := vsymBytes("junk", vsymChoice("junklen", 3))
+				vsymAssume(!gIsDecimal(tok))
+				args = append(args, tok)
+				vsymTag("malformation", "non-numeric")
+				vsymCover("non-numeric")
+			case 3:
+				toks := []string{"9223372036854775808", "-9223372036854775809", "1.5", "1e3", " 1", "0x10", "1_0"}
+				args = append(args, []byte(toks[vsymChoice("badint", len(toks))]))
+				vsymTag("malformation", "bad-integer")
+				vsymCover("bad-integer")
+			}
+			if mal == 0 {
+				// everything after a missing value is dropped as well
+				goto rendered
+			}
+		case a == "#":
+			// another option value of the request: any small well-formed positive integer
+			d := vsymByte("digit")
+			vsymAssume(d >= '1' && d <= '9')
+			args = append(args, []byte{d})
+		case a == "~":
+			if i > 0 && tmpl[i-1] == "TYPE" {
+				args = append(args, []byte("string"))
+			} else {
+				args = append(args, []byte("a*"))
+			}
+		default:
+			args = append(args, []byte(a))
+		}
+	}
+rendered:
+	in := []byte{'*'}
+	in = append(in, vItoa(len(args))...)
+	in = append(in, '\r', '\n')
+	for _, a := range args {
+		if len(a) == 5 && a[0] == 0xff {
+			in = append(in, '$', '-', '1', '\r', '\n')
+		} else {
+			in = append(in, vBulk(a)...)
+		}
+	}
+	in = append(in, vReqS("PING")...)
+	conn := newVconn(in)
+	server.receive(conn, nil)
+	ends, okS := vStrictStream(conn.out)
+	vsymAssert(okS && len(ends) == 2, "two-complete-replies")
+	if okS && len(ends) == 2 {
+		vsymAssert(conn.out[0] == '-', "ill-formed-option-value-gets-error-reply")
 		vsymAssert(vBytesEq(conn.out[ends[0]:], []byte("+PONG\r\n")), "following-request-processed-normally")
 	}
 	vsymAssert(len(h.calls) == 0, "handler-not-invoked-for-rejected-request")
